@@ -48,11 +48,11 @@ CHECKS = {
         ref='DESIGN.md 4/C09'),
     'C10': dict(
         technique='TLC model checking of all bounded file-system/load histories + trace validation of real histories against the same actions (spec/Trace_Loader.tla)',
-        text='MC: spec/MC_Loader.tla explores every history of write/empty/touch/delete on the main file and three directory files, ignored entries, loads and forced loads up to MaxOps ticks: LongLivedEqualsFresh, CacheCoherent, Idempotent. Conformance: exhaustive short histories and random histories up to 40 steps are replayed on real files with os.utime-controlled mtimes against a long-lived real Enforcer and a fresh one at every load; each recorded event must be explained by the corresponding spec action and the observed decisions must equal those of the spec state and of the declarative layering.',
+        text='MC: spec/MC_Loader.tla explores every history of write/empty/touch/delete/rename-into-place on the main file and three directory files, ignored entries, late registration, loads and forced loads up to MaxOps ticks, with the policy directories existing from the start or appearing with their first file: LongLivedEqualsFresh, CacheCoherent, Idempotent. Conformance: exhaustive short histories and random histories up to 40 steps are replayed on real files with os.utime-controlled mtimes against a long-lived real Enforcer and a fresh one at every load; each recorded event must be explained by the corresponding spec action and the observed decisions must equal those of the spec state and of the declarative layering.',
         ref='DESIGN.md 4/C10'),
     'C11': dict(
         technique='TLC model checking of the deprecated-rule procedure vs the override table on every file configuration + trace validation of every table row on real Enforcers',
-        text='MC: spec/MC_Loader.tla (SpecAll) for six deprecation variants x enforce_new_defaults: HandleDeprecated (branch for branch) = C11Body (the sentence). Conformance: every row of the table on real Enforcers with real DeprecatedRule objects, textual variants of check strings, arbitrary reason/since; validated by spec/Trace_Loader.tla.',
+        text='MC: spec/MC_Loader.tla (SpecAll) for eleven deprecation variants (renamed / same name / split / shared, equal check strings, the empty check string on either side) x enforce_new_defaults: HandleDeprecated (branch for branch) = C11Body (the sentence). Conformance: every row of the table on real Enforcers with real DeprecatedRule objects, textual variants of check strings, arbitrary reason/since; validated by spec/Trace_Loader.tla.',
         ref='DESIGN.md 4/C11'),
     'C12': dict(
         technique='TLC model checking of reload idempotence + trace validation of multi-enforcer interleavings projected per enforcer, with object snapshots',
@@ -89,7 +89,7 @@ CHECKS = {
         ref='DESIGN.md 4/C19'),
     'C20': dict(
         technique='TLC model checking of all interleavings of two threads at write granularity (as implemented: counterexamples = known findings; with a lock: holds) + deterministic schedule enumeration on the real code validated by TLC',
-        text='MC: spec/MC_LoaderMT.tla - two threads run enforce (load steps at the granularity of every write to the shared rule store, file-rule record and caches; look-up; evaluation) around one edit in every interleaving, five scenarios: with Locked=TRUE AtomicDecision and SettledCorrect hold, as implemented TLC finds the counterexamples. Conformance: every schedule with one or two context switches at every source-line boundary of the reloading call (and of a call started before the edit) is executed on the real code with real threads handed over by events; spec/Conf_LoaderMT.tla computes old and new policy from the loader specification and checks each decision and the settled state; wrong decisions are keyed by scenario/shape/projected rule store so that the windows of the unchanged tree are listed in known_findings.json and any other window is reported.',
+        text='MC: spec/MC_LoaderMT.tla - two threads run enforce (load steps at the granularity of every write to the shared rule store, file-rule record and caches; look-up; evaluation) around one edit in every interleaving, twelve scenarios: with Locked=TRUE AtomicDecision and SettledCorrect hold, as implemented TLC finds the counterexamples. Conformance: every schedule with one or two context switches at every source-line boundary of the reloading call (and of a call started before the edit) is executed on the real code with real threads handed over by events; spec/Conf_LoaderMT.tla computes old and new policy from the loader specification and checks each decision and the settled state; wrong decisions are keyed by scenario/shape/projected rule store so that the windows of the unchanged tree are listed in known_findings.json and any other window is reported.',
         ref='DESIGN.md 4/C20',
         note='preemption at source-line granularity (the quantifier of C20); CPython can also switch inside a line. Trusted: ' + TB),
 }
